@@ -40,7 +40,7 @@ ASSUMPTIONS = [
     "struct.pack raises for out-of-range lengths; len(), tell() and the UKVRecord constructor do not fail",
     "the OS does not alter bytes below the offset a process writes at",
 ]
-FLOORS = {"C02.R1": 2, "C02.R2": 1, "C02.R3": 5, "C02.R4": 6, "C02.R5": 1, "C02.R6": 4}
+FLOORS = {"C02.R7": 1, "C02.R1": 2, "C02.R2": 1, "C02.R3": 5, "C02.R4": 6, "C02.R5": 1, "C02.R6": 4}
 
 STATE = {"self._toc[]", "self._eof", "self._last"}
 STREAM_WRITES = {"self._stream.write", "self._stream.truncate", "self._pack_write", "self._stream.writelines"}
@@ -65,6 +65,7 @@ def run(chk):
     r4_block_header(chk, put, mapb, get)
     r5_shortcut(chk, mapb)
     r6_append_only(chk, put, wh, mapb)
+    r7_flush_progress(chk)
 
 
 # ----------------------------------------------------------------------------
@@ -89,21 +90,51 @@ def r1_commit_last(chk, put):
     fall = {n.id for n in cfg.nodes if fallible(n)}
     chk.require(fall, "UKVFile.put: no fallible step recognised")
     bad = []
+    rollback_note = None
+    tries = [t for t in walk_no_nested(put.node) if isinstance(t, ast.Try)]
+
+    def covered_by_rollback(store_node, fall_node):
+        """the fallible step sits in a try whose catch-all handler undoes the store and re-raises"""
+        nonlocal rollback_note
+        for t in tries:
+            if not any(x is fall_node.ast for b in t.body for x in ast.walk(b)):
+                continue
+            for h in t.handlers:
+                catch_all = h.type is None or norm(h.type) in ("BaseException", "Exception")
+                undoes = False
+                for x in h.body:
+                    for y in ast.walk(x):
+                        if isinstance(y, ast.Delete) and any("self._toc" in norm(tg) for tg in y.targets):
+                            undoes = True
+                        if isinstance(y, ast.Call) and (call_name(y) or "") in ("self._toc.pop",):
+                            undoes = True
+                reraises = bool(h.body) and isinstance(h.body[-1], ast.Raise) and h.body[-1].exc is None
+                if undoes and reraises:
+                    if catch_all:
+                        return True
+                    rollback_note = f"the roll-back handler catches only {norm(h.type)}: a struct.error from an oversize key (or any other exception) skips it"
+        return False
+
     for s in stores:
         reach = cfg.reachable([s], labels={"next", "true", "false", "back"})
         hit = sorted(reach & fall)
-        # a store that is itself fallible (value computed from the stream) is fine: the
-        # store happens after its own evaluation
         for h in hit:
+            if isinstance(cfg.nodes[h].ast, ast.Raise) and any(any(x is cfg.nodes[h].ast for hb in t.handlers for b in hb.body for x in ast.walk(b)) for t in tries):
+                continue  # the re-raise at the end of a roll-back handler
+            if "self._toc[]" in stored_paths(cfg.nodes[s].ast) and covered_by_rollback(cfg.nodes[s], cfg.nodes[h]):
+                continue
+            if isinstance(cfg.nodes[s].ast, ast.Delete):
+                continue  # the roll-back itself
             bad.append((cfg.nodes[s], cfg.nodes[h]))
     key = f"{put.key}:state-store-before-fallible-step"
     if bad:
         s, h = bad[0]
         chk.fail("C02.R1", key, put.where(s.ast),
                  f"`{short(s.ast, 60)}` (line {s.lineno}) updates the handle's index/extent and can be "
-                 f"followed by the fallible `{short(h.ast, 60)}` (line {h.lineno}): a failing put leaves the key listed")
+                 f"followed by the fallible `{short(h.ast, 60)}` (line {h.lineno}): a failing put leaves the key listed"
+                 + (f" ({rollback_note})" if rollback_note else ""))
     else:
-        chk.ok("C02.R1", key, put.where(), f"{len(stores)} state store(s), all after the last of {len(fall)} fallible step(s)")
+        chk.ok("C02.R1", key, put.where(), f"{len(stores)} state store(s), all after the last of {len(fall)} fallible step(s) (or rolled back by a catch-all handler)")
 
     # validation (guards, pack) before the first stream write
     writes = {n.id for n in cfg.nodes if n.kind == "stmt" and any(
@@ -313,6 +344,27 @@ def _case_literals(case):
 
 
 # ----------------------------------------------------------------------------
+def _record_subst(fn, e):
+    """text of e with `rec.<field>` replaced by the constructor argument when `rec = UKVRecord(...)` (single definition)"""
+    asg = assignments(fn)
+    names = ["pos", "key_len", "record_len"]
+
+    class T(ast.NodeTransformer):
+        def visit_Attribute(self, n):
+            if isinstance(n.value, ast.Name) and n.attr in names:
+                vals = [v for v in asg.get(n.value.id, []) if isinstance(v, ast.AST)]
+                if len(vals) == 1 and isinstance(vals[0], ast.Call) and call_name(vals[0]) == "UKVRecord":
+                    c = vals[0]
+                    m = dict(zip(names, c.args))
+                    for k in c.keywords:
+                        m[k.arg] = k.value
+                    if n.attr in m:
+                        return m[n.attr]
+            return self.generic_visit(n)
+    import copy
+    return norm(T().visit(copy.deepcopy(e)))
+
+
 def r4_block_header(chk, put, mapb, get):
     fields = _struct_const(chk, "_BLOCK_HEADER")
     chk.decide(len(fields) == 2, "C02.R4", f"{UKV}:_BLOCK_HEADER:arity", put.where(), f"two fields {fields}",
@@ -326,7 +378,7 @@ def r4_block_header(chk, put, mapb, get):
     chk.require(len(packs) == 1, "put: expected exactly one pack of the block header")
     c = packs[0]
     args = c.args[1:] if call_name(c) == "self._pack_write" else c.args
-    a = [norm(x) for x in args]
+    a = [_record_subst(put.node, x) for x in args]
     chk.decide(a == ["len(key)", "len(value)"], "C02.R4", f"{put.key}:packed-fields", put.where(c), f"packs {a}",
                f"put packs {a} into the block header; the scanner unpacks (key_len, record_len)")
     recs = calls_named(put.node, {"UKVRecord"})
@@ -475,7 +527,7 @@ def r6_append_only(chk, put, wh, mapb):
                 cfg = CFG(f.node)
                 wn = {n.id for n in cfg.nodes if n.kind == "stmt" and has_call(n.ast, {"self._stream.write", "self._pack_write"})}
                 sn = {n.id for n in cfg.nodes if n.kind == "stmt" and any(
-                    len(c.args) == 1 and norm(c.args[0]) == "self._eof" for c in calls_named(n.ast, {"self._stream.seek"}))}
+                    len(c.args) == 1 and _record_subst(f.node, c.args[0]) == "self._eof" for c in calls_named(n.ast, {"self._stream.seek"}))}
                 other_seek = {n.id for n in cfg.nodes if n.kind == "stmt" and has_call(n.ast, {"self._stream.seek"})} - sn
                 reach = cfg.reachable([cfg.entry], avoid=sn, labels={"next", "true", "false", "back"})
                 bad = reach & wn
@@ -523,6 +575,10 @@ def r6_append_only(chk, put, wh, mapb):
         name = f.qualname.split(".")[1]
         for s in walk_no_nested(f.node):
             if isinstance(s, ast.Delete) and any("self._toc" in norm(t) for t in s.targets):
+                in_handler = any(isinstance(t_, ast.Try) and any(x is s for h in t_.handlers for b in h.body for x in ast.walk(b)) for t_ in walk_no_nested(f.node))
+                own = name == "put" and all(norm(t) == "self._toc[key]" for t in s.targets)
+                if in_handler and own:
+                    continue  # roll-back of put's own insertion
                 chk.fail("C02.R6", f"{f.key}:toc-delete", f.where(s), "an index entry is deleted")
             if isinstance(s, ast.Call) and (call_name(s) or "") in ("self._toc.pop", "self._toc.clear", "self._toc.popitem", "self._toc.update"):
                 chk.fail("C02.R6", f"{f.key}:toc-mutator", f.where(s), f"{call_name(s)}() alters existing index entries")
@@ -537,3 +593,41 @@ def r6_append_only(chk, put, wh, mapb):
     subs = [t for s_ in st for t in s_.targets if isinstance(t, ast.Subscript)]
     chk.decide(all(norm(sub.slice) == "key" for sub in subs), "C02.R6", f"{put.key}:index-store-key", put.where(st[0]), "indexes under the put key",
                f"put stores the record under {[norm(sub.slice) for sub in subs]}, not under the key")
+
+
+def r7_flush_progress(chk):
+    """A write that fails during flush must not stay at the head of the queue: otherwise every later flush fails on the
+    same item and the puts queued behind it (already listed by keys()) never reach the file."""
+    prog = chk.prog
+    base = prog.cls(f"{BK}:CollectionBackendBase")
+    done = set()
+    for ci in [base] + prog.subclasses(base):
+        f = prog.method(ci, "flush")
+        chk.require(f is not None, f"{ci.name}.flush vanished")
+        if f.key in done:
+            continue
+        done.add(f.key)
+        chk.analysed(f)
+        cfg = CFG(f.node)
+        wn = [n for n in cfg.nodes if n.kind == "stmt" and has_call(n.ast, {"self._write"})]
+        if not wn:
+            if has_call(f.node, {"super().flush"}) or any(isinstance(c.func, ast.Attribute) and c.func.attr == "flush" for c in walk_no_nested(f.node) if isinstance(c, ast.Call)):
+                chk.ok("C02.R7", f"{f.key}:failing-write-leaves-queue-usable", f.where(), "delegates to the base flush", trivial=True)
+                continue
+            raise AnalysisError(f"{f.key}: flush does not call _write - unknown idiom")
+        key = f"{f.key}:failing-write-leaves-queue-usable"
+        removers = {n.id for n in cfg.nodes if n.ast is not None and n.kind in ("stmt", "test", "for") and any(
+            isinstance(c, ast.Call) and (call_name(c) or "") in ("self._write_queue.popleft", "self._write_queue.pop", "self._write_queue.clear", "self._write_queue.remove")
+            for c in walk_no_nested(n.ast if n.kind == "stmt" else (n.ast.test if n.kind == "test" else n.ast.iter)))}
+        ok = True
+        for w in wn:
+            # (a) the item was dequeued before the write in this iteration: every path from the loop header to the write passes a remover
+            loops = [n for n in cfg.nodes if n.kind in ("test", "for") and isinstance(n.ast, (ast.While, ast.For)) and any(x is w.ast for x in ast.walk(n.ast))]
+            before = bool(loops) and cfg.path(cfg.succs(loops[-1].id, {"true"}), {w.id}, avoid=removers) is None
+            # (b) or the exceptional exit of the write passes a remover
+            after = cfg.path(cfg.succs(w.id, {"exc"}), {cfg.raise_exit}, avoid=removers) is None
+            if not (before or after):
+                ok = False
+        chk.decide(ok, "C02.R7", key, f.where(wn[0].ast), "each item is dequeued before it is written (a failing write cannot wedge the queue)",
+                   "a failing _write leaves the failed item (and everything behind it) in the queue: every later flush fails again on the same item, so keys the "
+                   "collection already lists are never written")
